@@ -278,7 +278,7 @@ def check_ghost(code, extra_calls=()):
             raise InjectError('ghost code calls non-spec function %r' % name)
 
 
-def inject(text, specs, ghost_calls=()):
+def inject(text, specs, ghost_calls=(), lenient_loops=False):
     """specs: list of dicts
          {func, loop, [occurrence], assigns:str|None, invariants:[str], decreases:str|None}
          {func, ghost: code, at: 'func-begin'|'body-begin'|'body-end' (+loop) |
@@ -289,7 +289,13 @@ def inject(text, specs, ghost_calls=()):
     for n, sp in enumerate(specs):
         func = sp['func']
         occ = sp.get('occurrence', 0)
-        (bo, bc), loops = loops_of(text, func, occ)
+        try:
+            (bo, bc), loops = loops_of(text, func, occ)
+        except InjectError:
+            if lenient_loops and 'ghost' not in sp:
+                report.append({'func': func, 'loop': sp.get('loop'), 'dropped': 'function not found (fallback run)'})
+                continue
+            raise
         if 'ghost' in sp:
             code = sp['ghost']
             check_ghost(code, tuple(ghost_calls) + tuple(sp.get('calls', ())))
@@ -320,11 +326,15 @@ def inject(text, specs, ghost_calls=()):
                            'loop': sp.get('loop'), 'anchor': sp.get('anchor')})
             continue
         k = sp['loop']
-        if k >= len(loops):
-            raise InjectError('%s has %d loops, wanted #%d' % (func, len(loops), k))
+        if k >= len(loops) or ('expect' in sp and sp['expect'] not in loops[k].header):
+            if lenient_loops:
+                # bounded fallback run: loop-contract clauses have no runtime meaning, they may be dropped
+                report.append({'func': func, 'loop': k, 'dropped': 'loop anchor does not match (fallback run)'})
+                continue
+            if k >= len(loops):
+                raise InjectError('%s has %d loops, wanted #%d' % (func, len(loops), k))
+            raise InjectError('%s#%d header %r does not contain %r' % (func, k, loops[k].header, sp['expect']))
         lp = loops[k]
-        if 'expect' in sp and sp['expect'] not in lp.header:
-            raise InjectError('%s#%d header %r does not contain %r' % (func, k, lp.header, sp['expect']))
         cl = []
         if sp.get('assigns') is not None:
             cl.append('__CPROVER_assigns(%s)' % sp['assigns'])
